@@ -24,9 +24,12 @@ def strip_comments(src):
     return re.sub(r"/\*.*?\*/", "", src, flags=re.S)
 
 
-def eval_int(expr):
-    """Evaluate a Rust integer constant expression made of literals, + - * / and parentheses."""
+def eval_int(expr, env=None):
+    """Evaluate a Rust integer constant expression made of literals, + - * / and parentheses
+    (identifiers are looked up in env: constants already read from the same file)."""
     e = expr.strip()
+    for name, val in (env or {}).items():
+        e = re.sub(r"\b%s\b" % re.escape(name), str(val), e)
     e = re.sub(r"_(?=\d)", "", e)
     e = re.sub(r"(\d)(usize|u8|u16|u32|u64|i8|i16|i32|i64|isize)\b", r"\1", e)
     if not re.fullmatch(r"[0-9xXa-fA-F+\-*/() \t\n]+", e):
@@ -34,11 +37,17 @@ def eval_int(expr):
     return int(eval(e.replace("/", "//"), {"__builtins__": {}}))
 
 
-def const(src, name, where):
+def const(src, name, where, env=None):
     m = re.search(r"\bconst\s+%s\s*:\s*[A-Za-z0-9_]+\s*=\s*([^;]+);" % re.escape(name), src)
     if not m:
         raise Missing("const %s not found in %s" % (name, where))
-    return eval_int(m.group(1))
+    return eval_int(m.group(1), env)
+
+
+def has_guard(src, cond_regex):
+    """Is there an `if <cond> { return ...Err(` start-up validation?  (a boolean fact: when the
+    check disappears the fact turns false and the theorems that rest on it stop being provable)"""
+    return re.search(r"if\s+" + cond_regex + r"\s*\{\s*return\s+(?:Result::)?Err\(", src) is not None
 
 
 def default_field(src, struct, field, where):
@@ -153,9 +162,14 @@ def gen(repo):
     add("udp_num_shards", const(udp_swarm, "NUM_SHARDS", "udp/swarm.rs"), "crates/udp/src/swarm.rs")
     udp_common = strip_comments(read(repo, "crates/udp/src/common.rs"))
     add("udp_BUFFER_SIZE", const(udp_common, "BUFFER_SIZE", "udp/common.rs"), "crates/udp/src/common.rs")
+    add("udp_MAX_RESPONSE_PEERS_LIMIT", const(udp_common, "MAX_RESPONSE_PEERS_LIMIT", "udp/common.rs",
+                                              {"BUFFER_SIZE": const(udp_common, "BUFFER_SIZE", "udp/common.rs")}), "crates/udp/src/common.rs")
     uring = strip_comments(read(repo, "crates/udp/src/workers/socket/uring/mod.rs"))
     add("uring_RESPONSE_BUF_LEN", const(uring, "RESPONSE_BUF_LEN", "uring/mod.rs"), "crates/udp/src/workers/socket/uring/mod.rs")
     add("uring_REQUEST_BUF_LEN", const(uring, "REQUEST_BUF_LEN", "uring/mod.rs"), "crates/udp/src/workers/socket/uring/mod.rs")
+    add("uring_MAX_RESPONSE_PEERS_LIMIT", const(uring, "MAX_RESPONSE_PEERS_LIMIT_URING", "uring/mod.rs",
+                                                {"RESPONSE_BUF_LEN": const(uring, "RESPONSE_BUF_LEN", "uring/mod.rs")}),
+        "crates/udp/src/workers/socket/uring/mod.rs")
     udp_cfg = strip_comments(read(repo, "crates/udp/src/config.rs"))
     add("udp_default_max_scrape_torrents", default_field(udp_cfg, "ProtocolConfig", "max_scrape_torrents", "udp/config.rs"), "crates/udp/src/config.rs")
     add("udp_default_max_response_peers", default_field(udp_cfg, "ProtocolConfig", "max_response_peers", "udp/config.rs"), "crates/udp/src/config.rs")
@@ -170,6 +184,7 @@ def gen(repo):
     http_cfg = strip_comments(read(repo, "crates/http/src/config.rs"))
     add("http_default_max_scrape_torrents", default_field(http_cfg, "ProtocolConfig", "max_scrape_torrents", "http/config.rs"), "crates/http/src/config.rs")
     add("http_default_max_peers", default_field(http_cfg, "ProtocolConfig", "max_peers", "http/config.rs"), "crates/http/src/config.rs")
+    add("http_MAX_PEERS_LIMIT", const(http_cfg, "MAX_PEERS_LIMIT", "http/config.rs"), "crates/http/src/config.rs")
     ws_cfg = strip_comments(read(repo, "crates/ws/src/config.rs"))
     add("ws_default_max_scrape_torrents", default_field(ws_cfg, "ProtocolConfig", "max_scrape_torrents", "ws/config.rs"), "crates/ws/src/config.rs")
     add("ws_default_max_offers", default_field(ws_cfg, "ProtocolConfig", "max_offers", "ws/config.rs"), "crates/ws/src/config.rs")
@@ -182,6 +197,17 @@ def gen(repo):
     for name, value, src in consts:
         out.append("(* %s *)" % src)
         out.append("Definition %s : N := %d%%N." % (name, value))
+    # start-up validations (is the refusing `if ... { return Err(..) }` present?)
+    udp_lib = strip_comments(read(repo, "crates/udp/src/lib.rs"))
+    http_lib = strip_comments(read(repo, "crates/http/src/lib.rs"))
+    guards = [
+        ("udp_validates_max_response_peers", has_guard(udp_lib, r"config\.protocol\.max_response_peers\s*>\s*common::MAX_RESPONSE_PEERS_LIMIT"), "crates/udp/src/lib.rs run()"),
+        ("uring_validates_max_response_peers", has_guard(uring, r"config\.protocol\.max_response_peers\s*>\s*MAX_RESPONSE_PEERS_LIMIT_URING"), "uring/mod.rs SocketWorker::run"),
+        ("http_validates_max_peers", has_guard(http_lib, r"config\.protocol\.max_peers\s*>\s*config::MAX_PEERS_LIMIT"), "crates/http/src/lib.rs run()"),
+    ]
+    for name, val, src in guards:
+        out.append("(* %s *)" % src)
+        out.append("Definition %s : bool := %s." % (name, "true" if val else "false"))
     files["Consts.v"] = "\n".join(out) + "\n"
 
     # ---- byte literals of the http response header
